@@ -609,3 +609,132 @@ package ctfe
 //@ props C08
 //@ modifies a.User
 //@ ensures [non-nil] result != nil
+
+//@ func (github.com/google/certificate-transparency-go/trillian/ctfe.STHGetter).GetSTH
+//@ assumed
+//@ pure
+//@ ensures result1 == nil ==> result0 != nil
+//@ ensures result1 != nil ==> grpcCode(result1) != 0
+//@ note interface contract; the three implementations in sth.go are verified against it (C06/C15)
+
+//@ func (github.com/google/certificate-transparency-go/trillian/ctfe.MirrorSTHStorage).GetMirrorSTH
+//@ assumed
+//@ pure
+//@ ensures result1 == nil ==> result0 != nil && result0.TreeSize <= uint64(maxTreeSize)
+//@ note interface documentation: "returns an STH of TreeSize <= maxTreeSize"; the code does not re-check it (C15 assumption)
+
+//@ func getSignedLogRoot
+//@ props C06 C08
+//@ modifies nothing
+//@ frame-trusted the only non-pure callee, appendUserCharge, is applied to the ChargeTo of the request this function allocates (nil on first use)
+//@ ensures [errors-are-never-grpc-ok] result1 != nil ==> grpcCode(result1) != 0
+//@ site GetLatestSignedLogRoot#1 as rpc
+//@ site UnmarshalBinary#1 as um
+//@ requires client != nil && ctx != nil
+//@ fresh result0
+//@ ensures [result-xor-error] (result0 != nil) != (result1 != nil)
+//@ ensures [backend-error-passed-on] rpc.called && rpc.res1 != nil ==> result1 == rpc.res1 && result0 == nil
+//@ ensures [missing-root-is-an-error] rpc.called && rpc.res1 == nil && after(rpc, rpc.res0.SignedLogRoot == nil) ==> result1 != nil
+//@ ensures [garbled-root-is-an-error] um.called && um.res != nil ==> result1 != nil
+//@ ensures [root-hash-is-32-bytes] result1 == nil ==> len(result0.RootHash) == 32
+//@ ensures [only-a-decoded-root] result1 == nil ==> um.called && um.res == nil
+//@ at rpc assert [asks-for-this-log] rpc.in.LogId == logID
+//@ at um assert [decodes-the-returned-root] um.arg1 == after(rpc, rpc.res0.SignedLogRoot.LogRoot)
+
+//@ func (*SignatureCache).GetSignature
+//@ props C06
+//@ site bytes.Equal#1 as be
+//@ requires sc != nil
+//@ pure
+//@ ensures [hit-only-for-byte-equal-input] result1 ==> be.res && result0 == sc.sig
+//@ ensures [miss-otherwise] !be.res ==> !result1
+//@ at be assert [compares-with-cached-input] be.a == input && be.b == sc.input
+
+//@ func (*SignatureCache).SetSignature
+//@ props C06
+//@ requires sc != nil
+//@ modifies sc.input, sc.sig
+//@ ensures [stores-signature-with-the-bytes-it-signs] sc.input == input && sc.sig == sig
+
+//@ func signV1TreeHead
+//@ props C06
+//@ site SerializeSTHSignatureInput#1 as ser
+//@ site GetSignature#1 as gs
+//@ site Sign#1 as sg
+//@ site Sum#1 as sum
+//@ site SetSignature#1 as ss
+//@ site SignatureAlgorithmFromPubKey#1 as alg
+//@ requires signer != nil && sth != nil && cache != nil
+//@ modifies sth.TreeHeadSignature, cache.input, cache.sig
+//@ ensures [serialisation-error-propagates] ser.res1 != nil ==> result != nil && sth.TreeHeadSignature == old(sth.TreeHeadSignature)
+//@ ensures [cached-signature-only-for-identical-signed-bytes] result == nil && gs.res1 ==> sth.TreeHeadSignature == gs.res0 && !sg.called
+//@ ensures [fresh-signature-otherwise] result == nil && !gs.res1 ==> sg.called && sg.res1 == nil && sth.TreeHeadSignature.Signature == sg.res0 && sth.TreeHeadSignature.Algorithm.Hash == tls.SHA256 && sth.TreeHeadSignature.Algorithm.Signature == alg.res && ss.called
+//@ ensures [signing-error-propagates] sg.called && sg.res1 != nil ==> result != nil
+//@ at ser assert [signs-this-tree-head] ser.sth == *sth
+//@ at gs assert [cache-keyed-by-signed-bytes] gs.input == ser.res0
+//@ at sg assert [sha256-digest] typeof(sg.opts) == crypto.Hash && as(sg.opts, crypto.Hash) == crypto.SHA256 && sg.digest == sum.res
+//@ at ss assert [caches-signature-under-the-signed-bytes] ss.input == ser.res0 && ss.sig == sth.TreeHeadSignature
+
+//@ func (*LogSTHGetter).GetSTH
+//@ props C06 C08 C15
+//@ stable sg sg.li
+//@ ensures [errors-are-never-grpc-ok] result1 != nil ==> grpcCode(result1) != 0
+//@ site getSignedLogRoot#1 as gr
+//@ site signV1TreeHead#1 as sv
+//@ requires sg != nil && sg.li != nil && sg.li.rpcClient != nil && sg.li.signer != nil && ctx != nil
+//@ fresh result0
+//@ ensures [result-xor-error] (result0 != nil) != (result1 != nil)
+//@ ensures [backend-error-passed-on] gr.res1 != nil ==> result1 == gr.res1
+//@ ensures [sth-reports-backend-tree] result1 == nil ==> gr.res1 == nil && result0.Version == ct.V1 && result0.TreeSize == after(gr, gr.res0.TreeSize) && result0.Timestamp == after(gr, gr.res0.TimestampNanos) / 1000 / 1000
+//@ ensures [signed-and-nonempty] result1 == nil ==> sv.called && sv.res == nil && len(result0.TreeHeadSignature.Signature) > 0
+//@ at gr assert [root-of-this-log] gr.logID == sg.li.logID && gr.client == sg.li.rpcClient
+//@ at sv assert [signs-the-new-sth-with-log-key] sv.sth == sth && sv.signer == sg.li.signer && sv.cache == &sg.cache
+//@ at sv assert [sth-size-and-time-from-backend-root] sth.Version == ct.V1 && sth.TreeSize == after(gr, gr.res0.TreeSize) && sth.Timestamp == after(gr, gr.res0.TimestampNanos) / 1000 / 1000
+//@ at sv assert [sth-root-hash-from-backend-root] forall j int :: 0 <= j && j < 32 ==> sth.SHA256RootHash[j] == after(gr, gr.res0.RootHash[j])
+
+//@ func (*FrozenSTHGetter).GetSTH
+//@ props C06 C15
+//@ pure
+//@ requires sg != nil
+//@ ensures [only-ever-the-frozen-sth] result0 == sg.sth && result1 == nil
+
+//@ func (*MirrorSTHGetter).GetSTH
+//@ props C06 C08 C15
+//@ stable sg sg.li
+//@ site getSignedLogRoot#1 as gr
+//@ site GetMirrorSTH#1 as gm
+//@ requires sg != nil && sg.li != nil && sg.li.rpcClient != nil && sg.st != nil && ctx != nil
+//@ ensures [backend-error-passed-on] gr.res1 != nil ==> result1 == gr.res1 && result0 == nil
+//@ ensures [mirror-sth-bounded-by-backend-tree] result1 == nil ==> gm.called && result0 == gm.res0 && result0.TreeSize <= after(gr, gr.res0.TreeSize)
+//@ at gm assert [bound-is-backend-tree-size] gm.maxTreeSize == int64(after(gr, gr.res0.TreeSize))
+
+//@ func (*logInfo).getSTH
+//@ props C06 C08
+//@ site GetSTH#1 as g
+//@ requires li != nil && li.sthGetter != nil
+//@ ensures [getter-result-passed-on] result0 == g.res0 || (g.res1 != nil && result0 == nil)
+//@ ensures [error-passed-on] (result1 != nil) == (g.res1 != nil) && (g.res1 != nil ==> result1 == g.res1)
+//@ ensures [caller-view] (result1 == nil ==> result0 != nil) && (result1 != nil ==> grpcCode(result1) != 0)
+//@ stable li
+
+//@ func writeSTH
+//@ props C06
+//@ site tls.Marshal#1 as ms
+//@ site json.Marshal#1 as jm
+//@ requires sth != nil && w != nil
+//@ ensures [failures-are-errors] (ms.res1 != nil || (jm.called && jm.res1 != nil)) ==> result != nil
+//@ at ms assert [signature-encoded] typeof(ms.val) == ct.DigitallySigned && as(ms.val, ct.DigitallySigned) == sth.TreeHeadSignature
+//@ at jm assert [json-carries-the-sth-fields] jsonRsp.TreeSize == sth.TreeSize && jsonRsp.Timestamp == sth.Timestamp && len(jsonRsp.SHA256RootHash) == 32 && jsonRsp.TreeHeadSignature == ms.res0 && (forall j int :: 0 <= j && j < 32 ==> jsonRsp.SHA256RootHash[j] == sth.SHA256RootHash[j])
+
+//@ func getSTH
+//@ props C06 C08
+//@ stable li
+//@ site getSTH#1 as g
+//@ site toHTTPStatus#1 as ths
+//@ site writeSTH#1 as ws
+//@ requires li != nil && li.sthGetter != nil && w != nil && r != nil && ctx != nil
+//@ ensures [getter-error-mapped] g.res1 != nil ==> result0 == ths.res && result1 == g.res1 && !ws.called
+//@ ensures [getter-error-never-200] li.instanceOpts.ErrorMapper == nil && g.res1 != nil ==> result0 != 200
+//@ ensures [200-means-sth-written] li.instanceOpts.ErrorMapper == nil && result0 == 200 ==> result1 == nil && g.res1 == nil && ws.called && ws.res == nil
+//@ ensures [non200-error] result0 != 200 ==> result1 != nil
+//@ at ws assert [writes-the-getter-sth] ws.sth == g.res0
